@@ -549,6 +549,13 @@ def obligations(tier, seed):
     for label, func, args, patches in (CANARIES if tier == 'thorough' else CANARIES[:3]):
         specs.append(dict(name='canary/' + label, module=MOD, func=func, kind='canary', cost=10,
                           args=dict(args, patches={m: [list(x) for x in lst] for m, lst in patches.items()})))
+    # the lock-directory cleanup (TileLocker.lock, every 50th call) must not take a lock file away while a contender may still wait for it
+    from engine.e1 import spec as e1_spec
+    specs.append(e1_spec('props.lockdir', 'LockdirCleanup', 'lockdir-cleanup/never-removes-a-lock-file-younger-than-the-lock-timeout', cfg={}, cost=2))
+    specs.append(e1_spec('props.lockdir', 'LockdirCleanup', 'twin/lockdir-cleanup-removes', kind='witness', cfg=dict(witness_removal=True), cost=1))
+    specs.append(e1_spec('props.lockdir', 'LockdirCleanup', 'canary/lockdir cleanup with a fixed age limit', kind='canary', cfg={}, cost=1,
+                         patches={'mapproxy.cache.base': [("        cleanup_lockdir(self.lock_dir, max_lock_time=self.lock_timeout + 10,\n                        force=False)",
+                                                           "        cleanup_lockdir(self.lock_dir, max_lock_time=120, force=False)")]}))
     return specs
 
 
